@@ -86,12 +86,39 @@ def eval_interp_like(case, drv):
         ok = same_arr(impl[1], model[1])
     else:
         ok = impl[0] == model[0] == "err"
-    # the statement for the use get_metric makes of it: with the rule "extend" every axis both arrays carry ends up
-    # at the position of `like`
-    prop_ok = ok
+    # the statement, evaluated WITHOUT the model: interp_like is the chain of single-axis interpolations (every axis
+    # both arrays carry at different positions, in the order of the grid's axes; face-to-face shifts go through the
+    # centre first, all of them before the final hops) under the rule and fill value given - each hop through the real
+    # Grid.interp, which C01 / C02 verify
+    def chain():
+        v = arr
+        hops, final = [], []
+        for a in layout.axes:
+            inv = {d: p for p, d in a["coords"].items()}
+            have = [inv[d] for d in arr.dims if d in inv]
+            want = [inv[d] for d in like.dims if d in inv]
+            if len(have) != 1 or len(want) != 1 or have[0] == want[0]:
+                continue
+            if "center" not in (have[0], want[0]):
+                hops.append((a["name"], "center"))
+            final.append((a["name"], want[0]))
+        for axn, to_ in hops + final:
+            v = grid.interp(v, axn, to=to_, boundary=copy.deepcopy(case["boundary"]),
+                            fill_value=copy.deepcopy(case["fill"]))
+        return v
+    with warnings.catch_warnings():
+        warnings.simplefilter("ignore")
+        try:
+            oracle = ("ok", canon_da(chain()))
+        except Exception as e:  # noqa: BLE001
+            oracle = ("err", exc_kind(e))
+    if impl[0] == "ok" and oracle[0] == "ok":
+        prop_ok = same_arr(impl[1], oracle[1])
+    else:
+        prop_ok = impl[0] == oracle[0] == "err"
     detail = None
-    if not ok:
-        detail = {"impl": str(impl)[:300], "model": str(model)[:300]}
+    if not ok or not prop_ok:
+        detail = {"impl": str(impl)[:300], "model": str(model)[:300], "hop_by_hop": str(oracle)[:300]}
     elif impl[0] == "ok":
         want_dims = set(case["adims"])
         for a in layout.axes:
